@@ -408,6 +408,16 @@ impl_copy_to_for_numeric!(u32, INFO_DATATYPE::INFO_DATATYPE_UINT32);
 impl_copy_to_for_numeric!(i64, INFO_DATATYPE::INFO_DATATYPE_INT64);
 impl_copy_to_for_numeric!(u64, INFO_DATATYPE::INFO_DATATYPE_UINT64);
 
+/// Every entry point validates its pointer parameters before anything else: dereferencing a
+/// NULL pointer inside an `extern "C"` function crashes the consumer's process.
+fn assert_non_null<T>(ptr: *const T) -> GenTlResult<()> {
+    if ptr.is_null() {
+        Err(GenTlError::InvalidParameter)
+    } else {
+        Ok(())
+    }
+}
+
 fn assert_lib_initialized() -> GenTlResult<()> {
     if *IS_LIB_INITIALIZED.read().unwrap() {
         Ok(())
@@ -458,6 +468,8 @@ gentl_api!(
         sErrorText: *mut libc::c_char,
         piSize: *mut libc::size_t,
     ) -> GenTlResult<()> {
+        assert_non_null(piErrorCode)?;
+        assert_non_null(piSize)?;
         let code = if let Some((code, text)) = LAST_ERROR.with(|err| {
             let err = err.borrow();
             err.err.as_ref().map(|err| (err.into(), format!("{}", err)))
